@@ -1389,8 +1389,26 @@ func ruleCallbackPairing(c *Ctx, rule string) {
 				if k.created {
 					// dominated by the insert into the table
 					dom := w.domHit(in, func(in2 ssa.Instruction) bool { return tableWrite(w, in2, tbl) })
+					if !dom {
+						// reported first, inserted afterwards on every path (C15.7 checks that
+						// nothing is armed in between)
+						dom = true
+						n2 := 0
+						for _, r := range returnsOf(fn) {
+							if r.Block() != in.Block() && !blockReaches(in.Block(), r.Block()) {
+								continue
+							}
+							n2++
+							if !pathsPass(in.Block(), r.Block(), w.deepHit(func(in2 ssa.Instruction) bool { return tableWrite(w, in2, tbl) })) {
+								dom = false
+							}
+						}
+						if n2 == 0 {
+							dom = false
+						}
+					}
 					if dom {
-						c.OK(rule, fname(fn), k.name, w.instrPos(in), "dominated by the insert into "+k.table)
+						c.OK(rule, fname(fn), k.name, w.instrPos(in), "tied to the insert into "+k.table+" (dominated by it, or followed by it on every path)")
 					} else {
 						c.Bad(rule, fname(fn), k.name, w.instrPos(in), "the created-event can be emitted without (or before) the entry being inserted")
 					}
@@ -1635,7 +1653,7 @@ func derivesFromTableD(w *World, v ssa.Value, tbl *types.Var, depth int) bool {
 
 func ruleArmThenPublish(c *Ctx, rule string) {
 	w := c.W
-	c.Rule(rule, "CreateAllocation: from the instruction that arms lifetimeTimer every path to a return passes the insert into Manager.allocations (a failed create leaves no live timer behind, since the expiry deletes by 5-tuple and would hit a later allocation), and the insert dominates the OnAllocationCreated call (teardown arriving during a slow callback finds the allocation)", 2)
+	c.Rule(rule, "CreateAllocation: from the instruction that arms lifetimeTimer every path to a return passes the insert into Manager.allocations (a failed create leaves no live timer behind, since the expiry deletes by 5-tuple and would hit a later allocation), and the OnAllocationCreated call is either dominated by the insert (teardown arriving during a slow callback finds the allocation) or made before the timer is armed with every path from it reaching the insert (nothing can expire while the handler runs)", 2)
 	create := w.Func("allocation", "Manager", "CreateAllocation")
 	afterFunc := timeAfterFunc(w)
 	tbl := w.Field("allocation", "Manager", "allocations")
@@ -1684,6 +1702,28 @@ func ruleArmThenPublish(c *Ctx, rule string) {
 		}
 		if w.domHit(in, func(in2 ssa.Instruction) bool { return tableWrite(w, in2, tbl) }) {
 			okDom = true
+		}
+		// or the other way round, with nothing armed yet: the callback runs first, the timer is
+		// armed only afterwards (it cannot fire while the handler runs), and every path from the
+		// callback on inserts the allocation
+		if !okDom && in.Parent() == create && !instrReaches(arm, in) {
+			all := true
+			for _, r := range returnsOf(create) {
+				if r.Block() != in.Block() && !blockReaches(in.Block(), r.Block()) {
+					continue
+				}
+				if !pathsPass(in.Block(), r.Block(), isInsert) {
+					// an error return after the callback without the insert
+					if len(r.Results) > 0 && !isNilConst(w.resolveLoad(r.Results[len(r.Results)-1])) {
+						all = false
+					} else {
+						all = false
+					}
+				}
+			}
+			if all {
+				okDom = true
+			}
 		}
 	})
 	if okDom {
